@@ -98,3 +98,11 @@ q, t = rapid_jobs(qshards=4, tshards=12, tscale=12)
 t["jobs"].append(dict(name="wrap", mode="plain", run="^TestWrapHonest$", shards=4, timeout=3000))
 add("C10", "c10", q, t)
 ASSUMPTIONS["C10"] = ["quick tier reaches counter values near 2^32 with a reflection helper that writes the state k push/pop pairs would produce; the helper is validated against honest stepping in every run (sub-check fastforward_selfcheck) and skips itself if the struct layout changes; the thorough tier performs the >2^32 operations honestly"]
+
+# ---- C05 / C06 trie ------------------------------------------------------------------------
+q, t = rapid_jobs(qshards=4, tshards=16, tscale=12)
+t["jobs"].append(fuzz_job("FuzzTrie", 120))
+add("C05", "c05", q, t)
+q, t = rapid_jobs(qshards=4, tshards=16, tscale=12)
+t["jobs"].append(fuzz_job("FuzzReplace", 120))
+add("C06", "c06", q, t)
